@@ -29,6 +29,28 @@ CHECKS = {
         "values always delivered, delimiter-bearing values refused, wire text equal to a reference written from the OpenAPI 3.0.3 style table; values are "
         "symbolic bytes (all 256 values) within small stated length/item bounds. Two empty-collection defects are carried as known findings.",
    design="4 C06", technique="symbolic execution of go/ssa + SMT, round-trip and reference-serializer assertions over a completely enumerated style table"),
+ "C13": dict(
+   text="Bounded symbolic model checking of the real conv.XToString/ToX pairs and the json Encode*/Decode* helpers with everything they call (strconv "
+        "FormatInt/ParseInt/ParseUint/Atoi, uuid String/Parse, net.ParseMAC, netip v4, time.Unix*/UnixMilli/UnixMicro, jx): for EVERY value - one full-width "
+        "symbolic variable per type - the text has the format's syntax and parses back to the same value. int8..int64/uint8..uint64/int/uint and bool: every value "
+        "(wide integers split into digit-count x sign classes; quick runs a subset of the classes incl. the 10/19/20-digit ones, thorough all); UUID all 2^128; IPv4 all 2^32; MAC length 6 "
+        "all 2^48; unix seconds/milli/micro/nano both directions. NOT covered: floats, time.Format/Parse formats, URL, IPv6, big.*, and jx decoding of wide integers.",
+   design="4 C13", technique="symbolic execution of go/ssa + SMT; wide div/mod chains via a self-checked bit-vector-to-integer translation"),
+ "C18": dict(
+   text="Bounded symbolic model checking of the real json.Equal with the jx decoder underneath: pairs and triples of JSON texts built from 22 value templates whose leaves "
+        "(digits, string bytes, escape spellings, member names, whitespace bytes) are symbolic; asserts no error on well-formed texts, reflexivity, symmetry, transitivity and "
+        "agreement with equality of the denoted abstract values (objects unordered); single-byte corruption for totality. Structure and integer numbers only: "
+        "number spellings with '.', 'e', 'E' (ParseFloat/big.Rat) are outside and NOT decided.",
+   design="4 C18", technique="symbolic execution of go/ssa + SMT, differential against abstract-value equality"),
+ "C03": dict(
+   text="Kernel claim so far: bounded symbolic model checking of validate.Int (Min/Max/flags/MultipleOf/value all fully symbolic, against an independently formulated "
+        "reference), Array.ValidateLength, Object.ValidateProperties, String length (code points, multi-byte UTF-8), UniqueItems; the required-member bitmask kernel is in C09. "
+        "The generated Decode/Validate layer is not yet covered by this check (see DESIGN.md); floats and pattern are outside.",
+   design="4 C03", technique="symbolic execution of go/ssa + SMT over fully symbolic validator parameters"),
+ "C09": dict(
+   text="Kernel claim so far: bounded symbolic model checking of internal/bitset.Set (one step from an arbitrary pre-state), bitset.Build and ir.JSONFields.RequiredMask "
+        "(bit i set exactly when predicate i holds, across byte boundaries up to 20/33 members). The generated security gate is not yet covered by this check.",
+   design="4 C09", technique="symbolic execution of go/ssa + SMT, one inductive step from an arbitrary state"),
 }
 
 NA = {
